@@ -108,14 +108,14 @@ def run(ctx):
     if ex.build():
         def rel(p):
             return p["kind"] == "crash" or any(k in p["msg"] for k in ("packet-", "monitor-region-", "never-returns"))
-        rtx.explore(ctx, ex, ["delay", "delay", "single", "mon", "avgtwo", "avgtwo", "avgtwo"], 30 if ctx.tier == "thorough" else 5, 8 if ctx.tier == "thorough" else 4, rel)
+        rtx.explore(ctx, ex, ["delay", "delay", "single", "mon", "camempty", "avgtwo", "avgtwo", "avgtwo"], 30 if ctx.tier == "thorough" else 5, 8 if ctx.tier == "thorough" else 4, rel)
         ctx.cov["pipeline_runs"] = {"runs": ex.stats["runs"], "per_class": ex.stats["per_class"], "oracle_kinds_hit": ex.stats["oracle_kinds"],
                                     "cosim_ok": ex.stats["cosim_ok"]}
         ctx.cov["evaluations"] += ex.stats["runs"]
     ctx.cov["evaluations"] += n_sizes
     ctx.cov["size_cases"] = n_sizes
     ctx.cov["padding_residues_hit"] = pads
-    ctx.cov["rule"] = ("(c) whole-pipeline runs (classes delay/single/mon/avgtwo of checks/rtx.py) whose every storage packet and monitor region is checked for alignment and whole frames; (a) %d shape/type size computations (w*h for w,h over 0..67 and larger edge values x sample types 0..10, plus random up to 2^40) through the real "
+    ctx.cov["rule"] = ("(c) whole-pipeline runs (classes delay/single/mon/camempty/avgtwo of checks/rtx.py) whose every storage packet and monitor region is checked for alignment and whole frames; (a) %d shape/type size computations (w*h for w,h over 0..67 and larger edge values x sample types 0..10, plus random up to 2^40) through the real "
                        "bytes_of_image and the rounding expressions pasted from source.c/filter.c, vs the model; (b) " % n_sizes) + ctx.cov["rule"]
 
 
